@@ -137,7 +137,8 @@ fn std_core() -> FunctionMap {
                 list.borrow().len() as f64
             }
             Value::String(string) => {
-                string.len() as f64
+                // characters, like indexing and FOR EACH (not bytes)
+                string.chars().count() as f64
             }
             _ => {
                 return Ok(Value::Null)
